@@ -294,6 +294,9 @@ func Gen(r *rand.Rand, cfg Cfg) (*Program, []string) {
 		g.ctx = saveCtx
 		pl.f.Body = body
 	}
+	if g.feat["isset-swallows-failing-exec"] {
+		p.Files = append(p.Files, &File{Path: "/swf.jet", Body: []Node{&Text{S: "sw"}, &RawFail{Src: "{{ nosuchvarq.x }}", Positioned: true}, &Text{S: "never"}}})
+	}
 	var feats []string
 	for k := range g.feat {
 		feats = append(feats, k)
